@@ -164,6 +164,10 @@ def prepare_examples(ctx, extreme_rain=True):
     g3 += "K5,01011979,5\nK5,06201981,5\nK5,06211981,19\nK5,12312010,19\n"
     # a table that sinks slowly (about 0.7 cm a day: far less than the shipped series moves on a day it moves at all)
     g3 += "KS,01011979,8\nKS,01011980,8\nKS,12311981,13\nKS,12311986,6\nKS,12312010,6\n"
+    # a table that stands deep while the top layers mineralise, RISES into the mineralisation depth (top 3 dm) in the warm season for
+    # some weeks and returns: water-logged warm layers after aerobic days (a source term left over from an aerobic day must not be
+    # fed to the transport step; seeded C07-17, C02-17)
+    g3 += "KR,01011979,12\nKR,06201981,12\nKR,06251981,0.6\nKR,08011981,0.6\nKR,08051981,12\nKR,12312010,12\n"
     open(gp, "w").write(g3)
     # the residue table: the silage-maize row becomes the LAST row, and the file keeps ending without a line feed
     cn = os.path.join(ex, "parameter", "CROP_N.TXT")
@@ -341,7 +345,7 @@ SWEEP_QUICK = (
                                      "CropParameterFormat=yml", "Fertilization=50", "AutoIrrigation=1", "AutoFertilization=1",
                                      "GroundWaterFrom=0", "LeachingDepth=10", "NDeposition=60")]
     + [(_A.replace("soilId=075", "soilId=904"), "EN")]
-    + [(_B + " " + o, "EN") for o in ("PTF=1", "PTF=3", "GroundWaterFrom=0", "GroundWaterFrom=1", "gwId=K5 PTF=1")]
+    + [(_B + " " + o, "EN") for o in ("PTF=1", "PTF=3", "GroundWaterFrom=0", "GroundWaterFrom=1", "gwId=K5 PTF=1", "gwId=KR")]
     + [(_Z + " " + o, "DE") for o in ("AutoFertilization=0", "AutoHarvest=0", "AutoSowingHarvest=0", "AutoIrrigation=0", "Fertilization=50",
                                      "AutoSowingHarvest=0 AutoHarvest=0", "CropParameterFormat=yml")])
 SWEEP_MORE = (
